@@ -128,6 +128,7 @@ type seqCase struct {
 	phaseKeys    [2]int
 	staleBase    int           // events before this index belong to the maintenance a stale write raced with
 	returnedAt   map[int]int64 // value -> clock when the write that created it returned
+	seaDropped   map[int]bool  // value -> a SetExpiresAfter on it found the read buffer full (its re-scheduling record was dropped)
 	touched      []int
 	volunteered  map[int]int // key -> how often a bulk loader returned it unasked in this case
 	inTarget     bool
@@ -177,6 +178,7 @@ func (s *seqCase) setup(caseNo int) {
 	r := s.r
 	s.nextVal = 100
 	s.returnedAt = map[int]int64{}
+	s.seaDropped = map[int]bool{}
 	s.volunteered = map[int]int{}
 	s.staleBase = 0
 	s.nkeys = 3 + r.intn(4)
@@ -948,7 +950,18 @@ func (s *seqCase) step() {
 		if r.chance(10) {
 			d = []int64{0, -5}[r.intn(2)]
 		}
+		seaDropped := false
+		if s.maintMode && d > 0 {
+			// SetExpiresAfter tells the timer wheel about the new deadline through the LOSSY read buffer only
+			seaDropped = otter.VerifAudit(c).ReadBufferLen >= 16
+		}
 		c.SetExpiresAfter(k, time.Duration(d))
+		if seaDropped {
+			if e, ok := c.GetEntryQuietly(k); ok {
+				s.seaDropped[e.Value] = true
+				s.sum.Dist["SetExpiresAfter_record_dropped"]++
+			}
+		}
 		line = fmt.Sprintf("O SEA %d %d %d", k, d, now)
 		ret = "N"
 	case x < 68:
@@ -1711,7 +1724,12 @@ func (s *seqCase) policyOracles(a otter.VerifAuditData[int, int]) {
 		const tick = int64(1) << 30
 		for _, n := range a.Table {
 			if n.Exp < int64(a.WheelTime)-tick && s.returnedAt[n.Value] < int64(a.WheelTime)-tick {
-				s.sum.fail("C13", "unswept", "an entry expired more than one tick ago survived maintenance",
+				sig, what := "unswept", "an entry expired more than one tick ago survived maintenance"
+				if s.seaDropped[n.Value] {
+					sig = "unswept-setexpiresafter-record-dropped"
+					what = "an entry whose deadline SetExpiresAfter moved while the read buffer was full expired more than one tick ago and survived maintenance (the wheel was never told)"
+				}
+				s.sum.fail("C13", sig, what,
 					fmt.Sprintf("%s value=%d exp=%d wheelTime=%d", desc(), n.Value, n.Exp, a.WheelTime))
 			}
 		}
